@@ -549,7 +549,7 @@ def damage_fixed(c):
 def run(ctx):
     rng = ctx.rng
     from props import cli_proc
-    cli_proc.stream(ctx, ['C18', 'C18-prefill', 'C18-prefixdirs', 'C18@replication_repair'])
+    cli_proc.stream(ctx, ['C18', 'C18-prefill', 'C18-prefixdirs', 'C18@replication_repair', 'C18-grown'])
     for case in corpus():
         check_case(ctx, case)
     ctx.extra['corpus_cases'] = len(corpus())
